@@ -5,4 +5,4 @@ From PV Require Import Base.QUtil Gen.GenPns Model.Pns.
 Extraction Language OCaml.
 Extraction "../ocaml/pns/model.ml"
   Qred lowpass_fir lowpass_fast lowpass_iir calc_pns pns_axis pns_direct grad_pp sample num_samples
-  pad1_of pad2_of.
+  pad1_of pad2_of tap_count_ok tap_count_tight lowpass_eps safe_axis.
